@@ -44,13 +44,13 @@ Definition q_id (q : qitem) := c_id (q_chunk q).
 Definition q_pipe (q : qitem) := c_pipe (q_chunk q).
 
 Inductive gphase := Running | Stopping | Draining | Stopped.
-Inductive pphase := PRun | PWStopped | PDestroying | PDone.      (* processing worker / buffer of a pipeline *)
+Inductive pphase := PRun | PWStopped | PDestroying | PSaving | PDone.   (* processing worker / buffer of a pipeline *)
 Inductive cphase := CIdle | CSess | CHanding | CDone.            (* forwarder client of a pipeline *)
 
 Definition gphase_eqb (a b : gphase) : bool :=
   match a, b with Running, Running | Stopping, Stopping | Draining, Draining | Stopped, Stopped => true | _, _ => false end.
 Definition pphase_eqb (a b : pphase) : bool :=
-  match a, b with PRun, PRun | PWStopped, PWStopped | PDestroying, PDestroying | PDone, PDone => true | _, _ => false end.
+  match a, b with PRun, PRun | PWStopped, PWStopped | PDestroying, PDestroying | PSaving, PSaving | PDone, PDone => true | _, _ => false end.
 Definition cphase_eqb (a b : cphase) : bool :=
   match a, b with CIdle, CIdle | CSess, CSess | CHanding, CHanding | CDone, CDone => true | _, _ => false end.
 
@@ -66,7 +66,7 @@ Record state := mkState {
   chans : list (nat * list tok);      (* pipeline input channels: (pipeline, batch), FIFO per pipeline *)
   hand : list tok;                    (* batch being processed by a worker (FIFO per pipeline) *)
   cur : list tok;                     (* current (open) chunk of each pipeline *)
-  lastid : nat -> nat;                (* chunk id generator of each pipeline (last id handed out) *)
+  lastid : nat;                       (* chunk id clock: the last id handed out (ids are wall-clock ordered) *)
   pipes : list nat;                   (* pipelines existing in this generation *)
   pph : nat -> pphase;
   cph : nat -> cphase;
@@ -79,12 +79,13 @@ Record state := mkState {
   acked : list chunk;                 (* history: chunks the upstream acknowledged *)
   dropped : list chunk;               (* history: chunks counted in dropped_chunks_total *)
   filtered : list tok;                (* history: records dropped by the transforms (counted) *)
-  lost : list tok                     (* history: records lost by the channel-timeout ("BUG") branch *)
+  lost : list tok;                    (* history: records lost by the channel-timeout ("BUG") branch *)
+  received : list chunk               (* history: chunks received completely by the upstream, newest first *)
 }.
 
 Definition init : state :=
-  mkState Running [] [] [] [] [] [] [] [] (fun _ => 0) [] (fun _ => PRun) (fun _ => CIdle)
-          [] [] [] [] [] [] [] [] [] [].
+  mkState Running [] [] [] [] [] [] [] [] 0 [] (fun _ => PRun) (fun _ => CIdle)
+          [] [] [] [] [] [] [] [] [] [] [].
 
 (* ---------- list helpers ---------- *)
 
@@ -158,8 +159,9 @@ Inductive event :=
 | EFeederTake (p : nat)
 | EFeederLoad (p : nat) (ok : bool)  (* load an unloaded chunk from its file; failure: counted dropped *)
 | EFeederPush (p : nat)
-| EDestroy (p : nat)                 (* bufferer.Destroy: close the queue, signal inputClosed *)
-| ESave (p : nat) (w : where_) (ok : bool) (* saveEverything: next chunk of queue / feeder hand / window: file or counted drop *)
+| EDestroy (p : nat)                 (* bufferer.Destroy: close the queue, signal inputClosed to the feeder *)
+| EFeederBreak (p : nat)             (* feeder leaves its main loop: closes the window, signals the consumers, starts saving *)
+| ESave (p : nat) (w : where_) (ok : bool) (* saveQueued / saveOutput: next chunk of queue / feeder hand / window: file or counted drop *)
 | EFeederEnd (p : nat)               (* everything saved, consumers finished: feeder stopped, Destroy returns *)
 (* client *)
 | EConnect (p : nat)
@@ -188,18 +190,18 @@ Definition do_accept (s : state) (c : chunk) (o : accept_outcome) : state :=
   match o with
   | AMem => mkState (phase s) (open_conns s) (ingested s) (conn_buf s) (sink_batch s) (key_buf s) (chans s) (hand s) (cur s)
               (lastid s) (pipes s) (pph s) (cph s) (queue s ++ [new_item c true false]) (fhand s) (window s) (leftovers s) (unacked s)
-              (files s) (acked s) (dropped s) (filtered s) (lost s)
+              (files s) (acked s) (dropped s) (filtered s) (lost s) (received s)
   | ADisk => mkState (phase s) (open_conns s) (ingested s) (conn_buf s) (sink_batch s) (key_buf s) (chans s) (hand s) (cur s)
               (lastid s) (pipes s) (pph s) (cph s) (queue s ++ [new_item c false true]) (fhand s) (window s) (leftovers s) (unacked s)
-              (files s ++ [c]) (acked s) (dropped s) (filtered s) (lost s)
+              (files s ++ [c]) (acked s) (dropped s) (filtered s) (lost s) (received s)
   | ADropQuota | ADropFull =>
             mkState (phase s) (open_conns s) (ingested s) (conn_buf s) (sink_batch s) (key_buf s) (chans s) (hand s) (cur s)
               (lastid s) (pipes s) (pph s) (cph s) (queue s) (fhand s) (window s) (leftovers s) (unacked s)
-              (files s) (acked s) (dropped s ++ [c]) (filtered s) (lost s)
+              (files s) (acked s) (dropped s ++ [c]) (filtered s) (lost s) (received s)
   | ADropFullSaved =>
             mkState (phase s) (open_conns s) (ingested s) (conn_buf s) (sink_batch s) (key_buf s) (chans s) (hand s) (cur s)
               (lastid s) (pipes s) (pph s) (cph s) (queue s) (fhand s) (window s) (leftovers s) (unacked s)
-              (files s ++ [c]) (acked s) (dropped s ++ [c]) (filtered s) (lost s)
+              (files s ++ [c]) (acked s) (dropped s ++ [c]) (filtered s) (lost s) (received s)
   end.
 
 (* close the current chunk of pipeline p (if any record is in it) with id [id] and hand it to Accept *)
@@ -208,10 +210,10 @@ Definition close_chunk (s : state) (p id : nat) (o : accept_outcome) : option st
   match mine with
   | [] => None
   | _ =>
-    if Nat.ltb (lastid s p) id then
+    if Nat.ltb (lastid s) id then
       let s1 := mkState (phase s) (open_conns s) (ingested s) (conn_buf s) (sink_batch s) (key_buf s) (chans s) (hand s) others
-                  (upd (lastid s) p id) (pipes s) (pph s) (cph s) (queue s) (fhand s) (window s) (leftovers s) (unacked s)
-                  (files s) (acked s) (dropped s) (filtered s) (lost s) in
+                  id (pipes s) (pph s) (cph s) (queue s) (fhand s) (window s) (leftovers s) (unacked s)
+                  (files s) (acked s) (dropped s) (filtered s) (lost s) (received s) in
       Some (do_accept s1 (mkChunk id p mine) o)
     else None
   end.
@@ -219,40 +221,46 @@ Definition close_chunk (s : state) (p id : nat) (o : accept_outcome) : option st
 Definition set_pph (s : state) (p : nat) (v : pphase) : state :=
   mkState (phase s) (open_conns s) (ingested s) (conn_buf s) (sink_batch s) (key_buf s) (chans s) (hand s) (cur s)
     (lastid s) (pipes s) (upd (pph s) p v) (cph s) (queue s) (fhand s) (window s) (leftovers s) (unacked s)
-    (files s) (acked s) (dropped s) (filtered s) (lost s).
+    (files s) (acked s) (dropped s) (filtered s) (lost s) (received s).
 
 Definition set_cph (s : state) (p : nat) (v : cphase) : state :=
   mkState (phase s) (open_conns s) (ingested s) (conn_buf s) (sink_batch s) (key_buf s) (chans s) (hand s) (cur s)
     (lastid s) (pipes s) (pph s) (upd (cph s) p v) (queue s) (fhand s) (window s) (leftovers s) (unacked s)
-    (files s) (acked s) (dropped s) (filtered s) (lost s).
+    (files s) (acked s) (dropped s) (filtered s) (lost s) (received s).
 
 Definition set_phase (s : state) (v : gphase) : state :=
   mkState v (open_conns s) (ingested s) (conn_buf s) (sink_batch s) (key_buf s) (chans s) (hand s) (cur s)
     (lastid s) (pipes s) (pph s) (cph s) (queue s) (fhand s) (window s) (leftovers s) (unacked s)
-    (files s) (acked s) (dropped s) (filtered s) (lost s).
+    (files s) (acked s) (dropped s) (filtered s) (lost s) (received s).
 
 (* the buffer stages and client holdings as one update *)
 Definition set_buf (s : state) (q fh w lo ua : list qitem) (fl ak dr : list chunk) : state :=
   mkState (phase s) (open_conns s) (ingested s) (conn_buf s) (sink_batch s) (key_buf s) (chans s) (hand s) (cur s)
-    (lastid s) (pipes s) (pph s) (cph s) q fh w lo ua fl ak dr (filtered s) (lost s).
+    (lastid s) (pipes s) (pph s) (cph s) q fh w lo ua fl ak dr (filtered s) (lost s) (received s).
 
 (* the input stages as one update *)
 Definition set_in (s : state) (oc : list nat) (ing cb sb kb : list tok) (ch : list (nat * list tok)) (ps : list nat) (lo : list tok) : state :=
   mkState (phase s) oc ing cb sb kb ch (hand s) (cur s)
     (lastid s) ps (pph s) (cph s) (queue s) (fhand s) (window s) (leftovers s) (unacked s)
-    (files s) (acked s) (dropped s) (filtered s) lo.
+    (files s) (acked s) (dropped s) (filtered s) lo (received s).
 
 Definition set_work (s : state) (ch : list (nat * list tok)) (h c f : list tok) : state :=
   mkState (phase s) (open_conns s) (ingested s) (conn_buf s) (sink_batch s) (key_buf s) ch h c
     (lastid s) (pipes s) (pph s) (cph s) (queue s) (fhand s) (window s) (leftovers s) (unacked s)
-    (files s) (acked s) (dropped s) f (lost s).
+    (files s) (acked s) (dropped s) f (lost s) (received s).
+
+Definition add_received (s : state) (c : chunk) : state :=
+  mkState (phase s) (open_conns s) (ingested s) (conn_buf s) (sink_batch s) (key_buf s) (chans s) (hand s) (cur s)
+    (lastid s) (pipes s) (pph s) (cph s) (queue s) (fhand s) (window s) (leftovers s) (unacked s)
+    (files s) (acked s) (dropped s) (filtered s) (lost s) (c :: received s).
 
 Definition remove_file (c0 : chunk) (l : list chunk) : list chunk := filter (fun c => negb (chunk_eqb c c0)) l.
 
 Definition mem_nat (k : nat) (l : list nat) : bool := existsb (Nat.eqb k) l.
 
+(* the sequence number of a record is its arrival index on its connection: larger than every earlier one *)
 Definition stamp_fresh (t : tok) (l : list tok) : bool :=
-  none_of (fun u => Nat.eqb (t_conn u) (t_conn t) && Nat.eqb (t_seq u) (t_seq t)) l.
+  none_of (fun u => Nat.eqb (t_conn u) (t_conn t) && Nat.leb (t_seq t) (t_seq u)) l.
 
 Definition singleton_batches (l : list tok) : list (nat * list tok) := map (fun t => (t_pipe t, [t])) l.
 
@@ -271,6 +279,10 @@ Definition subset_pairs (a b : list (nat * nat)) : bool := forallb (fun x => exi
 Definition same_pairs (a b : list (nat * nat)) : bool := subset_pairs a b && subset_pairs b a.
 
 Definition recovered_queue (fl : list chunk) : list qitem := sort_items (map (fun c => new_item c false true) fl).
+
+(* the feeder's main loop runs (it may still take chunks from the closed queue after Destroy) *)
+Definition feeder_alive (ph : pphase) : bool :=
+  match ph with PRun | PWStopped | PDestroying => true | _ => false end.
 
 Definition step (s : state) (e : event) : option state :=
   match e with
@@ -345,7 +357,7 @@ Definition step (s : state) (e : event) : option state :=
            end
     else None
   | EFeederTake p =>
-    if negb (pphase_eqb (pph s p) PDone) && none_of (item_on p) (fhand s) then
+    if feeder_alive (pph s p) && none_of (item_on p) (fhand s) then
       match take_first (item_on p) (queue s) with
       | Some (q, rest) => Some (set_buf s rest (fhand s ++ [q]) (window s) (leftovers s) (unacked s) (files s) (acked s) (dropped s))
       | None => None
@@ -363,15 +375,18 @@ Definition step (s : state) (e : event) : option state :=
   | EFeederPush p =>
     match take_first (item_on p) (fhand s) with
     | Some (q, rest) =>
-      if q_loaded q && negb (pphase_eqb (pph s p) PDone)
+      if q_loaded q && feeder_alive (pph s p)
       then Some (set_buf s (queue s) rest (window s ++ [q]) (leftovers s) (unacked s) (files s) (acked s) (dropped s))
       else None
     | None => None
     end
   | EDestroy p =>
     if pphase_eqb (pph s p) PWStopped then Some (set_pph s p PDestroying) else None
+  | EFeederBreak p =>
+    if pphase_eqb (pph s p) PDestroying then Some (set_pph s p PSaving) else None
   | ESave p w ok =>
-    if pphase_eqb (pph s p) PDestroying then
+    (* saveQueued at once; saveOutput (the window) only after the consumers have quit *)
+    if pphase_eqb (pph s p) PSaving && (match w with WWindow => cphase_eqb (cph s p) CDone | _ => true end) then
       let src := match w with WQueue => queue s | WHand => fhand s | WWindow => window s end in
       match take_first (item_on p) src with
       | Some (q, rest) =>
@@ -385,7 +400,7 @@ Definition step (s : state) (e : event) : option state :=
       end
     else None
   | EFeederEnd p =>
-    if pphase_eqb (pph s p) PDestroying && cphase_eqb (cph s p) CDone
+    if pphase_eqb (pph s p) PSaving && cphase_eqb (cph s p) CDone
        && none_of (item_on p) (queue s) && none_of (item_on p) (fhand s) && none_of (item_on p) (window s)
     then Some (set_pph s p PDone) else None
   | EConnect p =>
@@ -393,14 +408,14 @@ Definition step (s : state) (e : event) : option state :=
   | ESendLeft p =>
     if cphase_eqb (cph s p) CSess then
       match take_first (item_on p) (leftovers s) with
-      | Some (q, rest) => Some (set_buf s (queue s) (fhand s) (window s) rest (unacked s ++ [q]) (files s) (acked s) (dropped s))
+      | Some (q, rest) => Some (add_received (set_buf s (queue s) (fhand s) (window s) rest (unacked s ++ [q]) (files s) (acked s) (dropped s)) (q_chunk q))
       | None => None
       end
     else None
   | ESendNew p =>
     if cphase_eqb (cph s p) CSess && none_of (item_on p) (leftovers s) then
       match take_first (item_on p) (window s) with
-      | Some (q, rest) => Some (set_buf s (queue s) (fhand s) rest (leftovers s) (unacked s ++ [q]) (files s) (acked s) (dropped s))
+      | Some (q, rest) => Some (add_received (set_buf s (queue s) (fhand s) rest (leftovers s) (unacked s ++ [q]) (files s) (acked s) (dropped s)) (q_chunk q))
       | None => None
       end
     else None
@@ -437,7 +452,7 @@ Definition step (s : state) (e : event) : option state :=
       Some (set_cph (set_buf s (queue s) (fhand s) (window s) (sort_items (leftovers s ++ mine)) others (files s) (acked s) (dropped s)) p CIdle)
     else None
   | EClientStop p =>
-    if cphase_eqb (cph s p) CIdle && pphase_eqb (pph s p) PDestroying then Some (set_cph s p CHanding) else None
+    if cphase_eqb (cph s p) CIdle && pphase_eqb (pph s p) PSaving then Some (set_cph s p CHanding) else None
   | EHandback p ok =>
     if cphase_eqb (cph s p) CHanding then
       match take_first (item_on p) (leftovers s) with
@@ -456,7 +471,7 @@ Definition step (s : state) (e : event) : option state :=
       Some (mkState Running [] (ingested s) [] [] [] [] [] [] (lastid s)
               (add_pipe_list (map c_pipe (files s)) [])
               (fun _ => PRun) (fun _ => CIdle)
-              (recovered_queue (files s)) [] [] [] [] (files s) (acked s) (dropped s) (filtered s) (lost s))
+              (recovered_queue (files s)) [] [] [] [] (files s) (acked s) (dropped s) (filtered s) (lost s) (received s))
     else None
   | EObsDisk l =>
     if gphase_eqb (phase s) Stopped && same_pairs l (disk_listing s) then Some s else None
